@@ -283,12 +283,17 @@ func (w *world) judgeCorrupted(sub string, ps pairSpec, r *pairResult, desc stri
 	w.judgeProof(sub, false, ps.In.verifier(), accts[ps.Out.Acct].peerId, r.Side[1], r.Received[1], desc, rc)
 }
 
-// judgeSplit: the very last frame of the exchange (the accepting side's final ack) is the only one whose sender has
+// judgeSplit (credential frames only, see below): the very last frame of the exchange (the accepting side's final ack) is the only one whose sender has
 // already decided when it is written; a manipulation of any earlier frame must end the same way on both sides ("an
 // error or deadline on both sides, never success"). A duplicate of the frame before the final ack is inserted exactly
 // where the final ack is expected: same position. last = index of the final frame in direction in->out.
 func (w *world) judgeSplit(m *mut, last int, r *pairResult, desc string, rc any) {
 	finalFrame := m.Dir == 1 && (m.K == last || m.Kind == "dup" && m.K == last-1)
+	if m.K != 0 {
+		// acks are not authenticated: whoever can rewrite an ack can turn a refusal into an acceptance for its
+		// receiver (or the other way round); only manipulations of the credential frames are judged for agreement
+		return
+	}
 	if r.Side[0].OK != r.Side[1].OK && !finalFrame && r.Side[0].Returned && r.Side[1].Returned {
 		w.c.Violation(fmt.Sprintf("b:verdicts-differ-after-manipulated-frame:dir=%d,k=%d,%s:outgoing=%v,incoming=%v", m.Dir, m.K, m.Kind, okStr(r.Side[0].OK), okStr(r.Side[1].OK)),
 			fmt.Sprintf("%s: outgoing=%s incoming=%s although the manipulated frame is not the final ack", desc, r.Side[0].verdict(), r.Side[1].verdict()), rc)
